@@ -10,28 +10,34 @@ Definition upd (p v : string) (i : N) : str * path_value := (B p, mkPV (B p) (B 
 Definition del (p : string) (i : N) : str * path_value := (B p, mkPV (B p) [] true i).
 Definition s0 : cfg_state := mkCfg [] [] [] [].
 
-(* (i) re-creation under a deleted ancestor: /a/b=1 ; delete /a ; /a/b=2 ; /x=3 *)
+(* (i) REPAIRED (3126412): re-creation under a deleted ancestor: /a/b=1 ; delete /a ; /a/b=2 ; /x=3 ; a status
+   update.  The re-created value stays readable and the tombstone of /a is gone from the stored map.  (The general
+   statement is Proofs/CommitProofs.v commit_store_refines, which has no guard about stored tombstones.) *)
 Definition r1 := set_cycle s0 1 [upd "/a/b" "1" 1].
 Definition r2 := set_cycle r1 2 [del "/a" 2].
 Definition r3 := set_cycle r2 3 [upd "/a/b" "2" 3].
 Definition r4 := set_cycle r3 4 [upd "/x" "3" 4].
+Definition r5 := status_update r4.
 
-Lemma recreate_refuted :
+Lemma recreate_kept_example :
+  live (view_values r2) (B "/a/b") = None /\
   live (view_values r3) (B "/a/b") = Some (B "2") /\
-  map_get (B "/a/b") [upd "/x" "3" 4] = None /\ ~ cascaded (view_values r3) [upd "/x" "3" 4] (B "/a/b") /\
-  live (view_values r4) (B "/a/b") = None.
-Proof.
-  split; [vm_compute; reflexivity|]. split; [vm_compute; reflexivity|]. split; [|vm_compute; reflexivity].
-  intros [kd [d [HI [Dd _]]]]. destruct HI as [HI|[]]. injection HI as <- <-. discriminate.
-Qed.
+  live (view_values r4) (B "/a/b") = Some (B "2") /\
+  live (view_values r5) (B "/a/b") = Some (B "2") /\
+  map_get (B "/a") (cs_map r3) = None.
+Proof. repeat split; vm_compute; reflexivity. Qed.
 
-(* the same below a key-less list name: lost by the very commit that writes it (GetParentPath never visits /l) *)
-Definition q1 := set_cycle s0 1 [upd "/l[k=1]/v" "1" 1].
-Definition q2 := set_cycle q1 2 [del "/l" 2].
-Definition q3 := set_cycle q2 3 [upd "/l[k=1]/v" "2" 3].
-Lemma recreate_list_refuted :
-  live (view_values q2) (B "/l[k=1]/v") = None /\ live (view_values q3) (B "/l[k=1]/v") = None.
-Proof. split; vm_compute; reflexivity. Qed.
+(* the same below a key-less list name and below a leading subset of the keys of a two-key list *)
+Definition q1 := set_cycle s0 1 [upd "/l[k=1]/v" "1" 1; upd "/m[k1=a][k2=b]/v" "1" 1].
+Definition q2 := set_cycle q1 2 [del "/l" 2; del "/m[k1=a]" 2].
+Definition q3 := set_cycle q2 3 [upd "/l[k=1]/v" "2" 3; upd "/m[k1=a][k2=c]/v" "2" 3].
+Definition q4 := set_cycle q3 4 [upd "/x" "3" 4].
+Lemma recreate_list_kept_example :
+  live (view_values q2) (B "/l[k=1]/v") = None /\
+  live (view_values q4) (B "/l[k=1]/v") = Some (B "2") /\
+  live (view_values q4) (B "/m[k1=a][k2=c]/v") = Some (B "2") /\
+  live (view_values q4) (B "/m[k1=a][k2=b]/v") = None.
+Proof. repeat split; vm_compute; reflexivity. Qed.
 
 (* (ii) delete of /a and update of /a/b in one request: the result depends on the iteration order *)
 Definition ovV : cfgmap := [upd "/a/b" "1" 1].
